@@ -112,6 +112,11 @@ impl Connection {
             .map(|(send, recv)| (SendStream(send), recv))
     }
 
+    /// Whether this connection has already ended (closed by either side or lost).
+    pub(crate) fn is_closed(&self) -> bool {
+        self.inner.close_reason().is_some()
+    }
+
     /// Close the connection immediately.
     ///
     /// This is not a graceful close - pending operations will fail immediately and data on
